@@ -76,6 +76,10 @@ COLLATIONS = ["NOCASE", "BINARY", "RTRIM"]  # SQLite's built-in collating sequen
 
 
 def mk_type(ty):
+    if ty.get("variant"):
+        # base.with_variant(<type>, <dialect>): on SQLite the column has the variant's type iff the variant names sqlite
+        v = ty["variant"]
+        return mk_type({k: x for k, x in ty.items() if k != "variant"}).with_variant(mk_type(v["ty"]), v["dialect"])
     args = list(ty.get("args") or [])
     if ty.get("coll") and ty["fam"] in COLLATABLE:
         # collation= is rendered as COLLATE "<name>" after the type; SQLite never reflects it
@@ -93,14 +97,21 @@ def mk_default(d):
     return sa.text(d["v"])
 
 
+def flag_index_name(table, col):
+    """name SQLAlchemy gives the index of Column(index=True): ix_<column_0_label>, the label includes a schema"""
+    return "ix_%s%s_%s" % (table["schema"] + "_" if table.get("schema") else "", table["name"], col)
+
+
 def build_metadata(schema):
     md = sa.MetaData()
+    # a table may spell out the dialect's default schema (schema="main" on SQLite): the same table as without it
+    schema_of = {t["name"]: t.get("schema") for t in schema["tables"]}
     for t in schema["tables"]:
         cols = []
         # an index entry with "flag" is declared through the column-level flag Column(index=True[, unique=True]):
         # SQLAlchemy turns it into Index("ix_<table>_<column>", column, unique=...) (honoured only in that exact shape)
         flagged = {ix["cols"][0]: ix for ix in t.get("ixs", [])
-                   if ix.get("flag") and len(ix["cols"]) == 1 and ix["name"] == "ix_%s_%s" % (t["name"], ix["cols"][0]) and not ix.get("desc")}
+                   if ix.get("flag") and len(ix["cols"]) == 1 and ix["name"] == flag_index_name(t, ix["cols"][0]) and not ix.get("desc")}
         for c in t["cols"]:
             kw = {}
             if c["name"] in flagged and not c.get("computed"):
@@ -132,7 +143,7 @@ def build_metadata(schema):
             items.append(
                 sa.ForeignKeyConstraint(
                     f["cols"],
-                    ["%s.%s" % (f["reftable"], rc) for rc in f["refcols"]],
+                    ["%s%s.%s" % (schema_of.get(f["reftable"]) and schema_of[f["reftable"]] + "." or "", f["reftable"], rc) for rc in f["refcols"]],
                     name=f["name"],
                     ondelete=f.get("ondelete"),
                     onupdate=f.get("onupdate"),
@@ -140,7 +151,7 @@ def build_metadata(schema):
                     initially=f.get("initially"),
                 )
             )
-        tbl = sa.Table(t["name"], md, *items, comment=t.get("comment"))
+        tbl = sa.Table(t["name"], md, *items, comment=t.get("comment"), schema=t.get("schema"))
         for ix in t.get("ixs", []):
             if ix["cols"][0] in flagged and flagged[ix["cols"][0]] is ix and not any(c["name"] == ix["cols"][0] and c.get("computed") for c in t["cols"]):
                 continue  # created by the column flag
